@@ -212,12 +212,17 @@ func runWALEntryRegistry(c *core.Ctx) {
 	next := c.Fn(tsm1 + ".(*WALSegmentReader).Next")
 	info := next.Info()
 	var sw *ast.SwitchStmt
-	ast.Inspect(next.Body, func(n ast.Node) bool {
-		if s, ok := n.(*ast.SwitchStmt); ok && s.Tag != nil && types.Identical(info.TypeOf(s.Tag), tagT) {
-			sw = s
-		}
-		return true
-	})
+	// the dispatch may sit in Next itself or in an unexported helper it calls
+	for _, g := range withLocalHelpers(c.P, next) {
+		ast.Inspect(g.Body, func(n ast.Node) bool {
+			if s, ok := n.(*ast.SwitchStmt); ok && s.Tag != nil && types.Identical(g.Info().TypeOf(s.Tag), tagT) && sw == nil {
+				sw = s
+				next = g
+				info = g.Info()
+			}
+			return true
+		})
+	}
 	c.Need(sw != nil, "switch on WalEntryType in WALSegmentReader.Next")
 	handled := map[*types.Const]bool{}
 	hasDefault := false
